@@ -191,6 +191,9 @@ func ruleC20_4(c *Ctx) {
 						if nv == nil {
 							continue
 						}
+						if os.Getenv("IVGSA_DEBUG_SCAN") != "" && cv == '0' && kv == 0 {
+							fmt.Fprintf(os.Stderr, "COUNTER edge %d: %s\n   byte term %s\n", i, nv.Key(), fr.Val(scanL.byteV).Key())
+						}
 						nv = sym.Subst(nv, fr.Val(scanL.byteV), sym.Const(constant.MakeInt64(cv), u8))
 						nv = sym.Subst(nv, fr.Val(scanL.counter), sym.Const(constant.MakeInt64(kv), intT))
 						// the value may be a join over the ways round: all leaves consistent with the byte must agree
@@ -199,7 +202,18 @@ func ruleC20_4(c *Ctx) {
 							wantK = kv + 1
 						}
 						for _, lf := range sym.DeepCases(nv, 64) {
-							if sym.CondsContradict(lf.Conds) {
+							// under the condition under which the loop is running at all
+							conds := append([]*sym.Term{}, lf.Conds...)
+							if hr := fr.Reach(scanL.h); hr != nil {
+								conds = append(conds, hr)
+							}
+							dead := sym.CondsContradict(conds)
+							for _, cd := range lf.Conds {
+								if b, isC := cd.BoolVal(); isC && !b {
+									dead = true
+								}
+							}
+							if dead {
 								continue
 							}
 							if v, ok := lf.Val.Int64(); !ok || v != wantK {
@@ -414,7 +428,8 @@ func ruleC20_5(c *Ctx) {
 	// reader, format, destination
 	okR := len(sc.Args) >= 2 && strings.Contains(sc.Args[0].Key(), "param:r")
 	format, _ := sc.Args[1].StringVal()
-	okF := format == "%f"
+	// fmt scans every floating-point verb alike
+	okF := len(format) == 2 && format[0] == '%' && strings.ContainsRune("eEfFgGv", rune(format[1]))
 	okD := false
 	var idx *sym.Term
 	// the store is seen once per evaluation pass: the last one is the fixpoint's
@@ -442,7 +457,22 @@ func ruleC20_5(c *Ctx) {
 	}
 	R.Check(okLoop, key+"#operands", pos, "for i := 0; i < n; i++ with slot i", "")
 	// the space loop: one ReadByte per round on r; UnreadByte exactly when the byte is not a space, and then the loop is left
-	okSp := len(reads) == 1 && len(unreads) == 1 && len(reads[0].Loops) == 2 && strings.Contains(reads[0].Args[0].Key(), "param:r") && strings.Contains(unreads[0].Args[0].Key(), "param:r")
+	// (the read may be spelled once, at the top of the loop, or twice, before the loop and at its end)
+	var inner *sym.Event
+	okSp := len(reads) >= 1 && len(unreads) == 1 && len(unreads[0].Loops) == 1 && strings.Contains(unreads[0].Args[0].Key(), "param:r")
+	for _, rd := range reads {
+		if !strings.Contains(rd.Args[0].Key(), "param:r") {
+			okSp = false
+		}
+		if len(rd.Loops) == 2 {
+			inner = rd
+		}
+	}
+	if inner == nil {
+		okSp = false
+	} else {
+		reads = []*sym.Event{inner}
+	}
 	detail := fmt.Sprintf("%d ReadByte, %d UnreadByte", len(reads), len(unreads))
 	if okSp {
 		// the byte read
